@@ -438,6 +438,50 @@ func c17(c *h.Ctx) {
 	h.Par(len(cases), 16, func(i int) { runC17(c, i, cases[i]) })
 	h.Par(16, 16, func(m int) { c17global(c, m, m) })
 	c17discovered(c)
+	c17big(c)
+	c17brokenGlobal(c)
+}
+
+// c17big: a file of the closure larger than a mebibyte (generated task definitions): every definition of it is there.
+func c17big(c *h.Ctx) {
+	dir := caseDir(c, "c17big")
+	defer os.RemoveAll(dir)
+	real, _ := filepath.EvalSymlinks(dir)
+	var sb strings.Builder
+	sb.WriteString("tasks:\n")
+	n := 40000
+	for i := 0; i < n; i++ {
+		fmt.Fprintf(&sb, "  t%06d:\n    command: [\"true\"]\n", i)
+	}
+	h.WriteFile(real+"/generated/services.yaml", sb.String())
+	h.WriteFile(real+"/tasks.yaml", "import: [\"generated\"]\ntasks:\n  root-task:\n    command: [\"true\"]\n")
+	res := tc{Dir: real, Timeout: 120 * time.Second}.run(c, "-c", real+"/tasks.yaml", "list", "tasks")
+	c.Eval(1)
+	cas := map[string]interface{}{"imported_file_bytes": sb.Len(), "tasks_in_it": n, "exit": res.Exit, "stderr": clip(stripANSI(string(res.Stderr)), 400)}
+	if crashed, how := res.Crashed(); crashed {
+		c.Violate("cli-crash/"+h.TopFrame(string(res.Stderr)), "taskctl died: "+how, cas)
+		return
+	}
+	listed := map[string]bool{}
+	for _, w := range strings.Fields(stripANSI(string(res.Stdout))) {
+		listed[strings.Trim(w, "-*,")] = true
+	}
+	missing := 0
+	first := ""
+	for i := 0; i < n; i += 1 {
+		name := fmt.Sprintf("t%06d", i)
+		if !listed[name] {
+			missing++
+			if first == "" {
+				first = name
+			}
+		}
+	}
+	if res.Exit != 0 || missing > 0 {
+		c.Violate("imported-definitions-missing/large-file", fmt.Sprintf("exit %d; %d of the %d tasks of a %d-byte imported file are not listed (first missing: %s)", res.Exit, missing, n, sb.Len(), first), cas)
+	}
+	c.Count("large_file_tasks_checked", int64(n))
+	c.Nontrivial("big")
 }
 
 // c17discovered: the project file is found by default discovery (no -c), $HOME has a global configuration, and one
@@ -483,6 +527,43 @@ func c17discovered(c *h.Ctx) {
 		}
 		c.Count("discovered_project_cases", 1)
 		c.Nontrivial("discovered" + kind + name)
+	})
+}
+
+// c17brokenGlobal: the global configuration is part of what is loaded: when it (or one of its imports) is broken the
+// load fails; a file it shares with the project is not lost on the way.
+func c17brokenGlobal(c *h.Ctx) {
+	kinds := []string{"global-syntax", "global-import-missing-after-shared", "global-import-broken-after-shared"}
+	h.Par(len(kinds), 3, func(i int) {
+		kind := kinds[i]
+		dir := caseDir(c, fmt.Sprintf("c17bg.%d", i))
+		defer os.RemoveAll(dir)
+		real, _ := filepath.EvalSymlinks(dir)
+		home, proj := real+"/home", real+"/proj"
+		h.WriteFile(real+"/shared/common.yaml", "tasks:\n  common:\n    command: [\"true\"]\n")
+		g := "tasks:\n  global-task:\n    command: [\"true\"]\n"
+		switch kind {
+		case "global-syntax":
+			g = "tasks: [unclosed\n"
+		case "global-import-missing-after-shared":
+			g = "import: [\"" + real + "/shared/common.yaml\", \"" + real + "/shared/gone.yaml\"]\n" + g
+		case "global-import-broken-after-shared":
+			h.WriteFile(real+"/shared/bad.yaml", "tasks: [unclosed\n")
+			g = "import: [\"" + real + "/shared/common.yaml\", \"" + real + "/shared/bad.yaml\"]\n" + g
+		}
+		h.WriteFile(home+"/.taskctl/config.yaml", g)
+		h.WriteFile(proj+"/tasks.yaml", "import: [\"../shared/common.yaml\"]\ntasks:\n  project-task:\n    command: [\"true\"]\n")
+		res := tc{Dir: proj, Home: home, Timeout: 15 * time.Second}.run(c, "list", "tasks")
+		c.Eval(1)
+		cas := map[string]interface{}{"global": g, "kind": kind, "exit": res.Exit, "stdout": clip(string(res.Stdout), 300), "stderr": clip(stripANSI(string(res.Stderr)), 400)}
+		if crashed, how := res.Crashed(); crashed {
+			c.Violate("cli-crash/"+h.TopFrame(string(res.Stderr)), "taskctl died: "+how, cas)
+			return
+		}
+		if res.Exit == 0 {
+			c.Violate("broken-import-accepted/"+kind, "a broken global configuration (or a broken import of it) was tolerated: `taskctl list tasks` exits 0 with "+clip(strings.Join(lines(string(res.Stdout)), " "), 200), cas)
+		}
+		c.Nontrivial("brokenglobal" + kind)
 	})
 }
 
